@@ -34,7 +34,7 @@ axiom("repl_absent", {"s": "Str", "a": "Str", "b": "Str"}, "implies(not (a in s)
 contract("read_str_coding", abstract=True, pure=True, heap_independent=True, params={"source": "Str"}, returns="Opt[Str]",
          ensures=["result == cookie_str(source)"], note="bounded stand-in: agreement with the PEP 263 pattern")
 
-contract("unicode_to_file_data", source=M + "unicode_to_file_data", params={"contents": "Str", "encoding": "Opt[Str]", "newlines": "Opt[Str]"}, returns=B,
+contract("unicode_to_file_data", source=M + "unicode_to_file_data", params={"contents": "Str", "encoding": "Opt[Str]", "newlines": "Opt[Str]"}, defaults={"encoding": "None", "newlines": "None"}, returns=B,
          ensures=[
              # the text that is encoded: LF replaced by the file's newline convention exactly when one other than LF is given
              "implies(is_none(newlines) or val(newlines) == '\\n' or val(newlines) == '', "
